@@ -75,6 +75,9 @@ int f(short *p, unsigned short *q) { int a = p[0] + q[1]; p[2] = (short)(a * 3);
 S("neg_reuse", "f", """
 int f(int a, int b) { int n = -a; int m = ~b; return (n ^ a) + (m & b) + n * m; }
 """)
+S("trunc_reuse", "f", """
+int f(int a, int b) { short s = (short)a; signed char c = (signed char)b; unsigned char u = (unsigned char)a; return s + c + u + a + b; }
+""")
 S("char_ops", "f", """
 int f(signed char a, unsigned char b) { signed char n = -a; unsigned char m = ~b; return (n < a) + (m > b) * 2 + (a >> 1) + (b >> 1) + n + m; }
 """)
